@@ -664,7 +664,9 @@ def oracle(case):
     if S.get("box") is None and extra.get("box") is not None:
         S = dict(S, box=[[f32(v) for v in row] for row in extra["box"]])
     hard, soft = limits(S)
-    v = []
+    v = _oracle_purity(S, extra)
+    if v:
+        return v
     with warnings.catch_warnings():
         warnings.simplefilter("ignore")
         f = PDBFile()
@@ -820,6 +822,75 @@ def oracle(case):
                                               for i in range(n) for d in range(3)):
                 v.append(("C07/model-index/wrong-model", f"get_structure(model={k}) is not model {want + 1} of {M}"))
                 return v
+    return v
+
+
+def _snapshot(arr):
+    """everything a caller can observe of an AtomArray / AtomArrayStack, as plain bytes"""
+    import numpy as np
+    snap = {"coord": (arr.coord.dtype.str, arr.coord.shape, arr.coord.tobytes())}
+    for cat in arr.get_annotation_categories():
+        a = arr.get_annotation(cat)
+        snap["annot:" + cat] = (a.dtype.str, a.shape, a.tobytes())
+    snap["box"] = None if arr.box is None else (arr.box.dtype.str, arr.box.shape, arr.box.tobytes())
+    snap["bonds"] = None if arr.bonds is None else (arr.bonds.get_atom_count(), np.ascontiguousarray(arr.bonds.as_array()).tobytes())
+    return snap
+
+
+def _oracle_purity(S, extra):
+    """set_structure / get_structure are observers: the structure handed to the writer is bit-identical afterwards (also when
+    the writer refuses it), exporting the same object again gives the file a fresh copy gives, and reading changes neither
+    the file object nor the argument lists."""
+    from biotite.structure.io.pdb import PDBFile
+    v = []
+
+    def export(arr, h36):
+        f = PDBFile()
+        try:
+            f.set_structure(arr, hybrid36=h36)
+        except Exception as e:  # noqa: BLE001
+            return "ERR:" + type(e).__name__
+        return list(f.lines)
+    with warnings.catch_warnings():
+        warnings.simplefilter("ignore")
+        for seq in ((False, True), (True, False), (False, False), (True, True)):
+            arr = build_array(S, extra)
+            before = _snapshot(arr)
+            for step, h36 in enumerate(seq):
+                fresh = export(build_array(S, extra), h36)
+                got = export(arr, h36)
+                after = _snapshot(arr)
+                changed = [k for k in before if before[k] != after.get(k)] + [k for k in after if k not in before]
+                if changed:
+                    return [(f"C07/purity/set_structure-mutates-input/{changed[0].split(':')[-1]}",
+                             f"set_structure(hybrid36={h36}) changed {changed} of the structure it was given")]
+                if got != fresh:
+                    name = "+".join("hybrid36" if x else "classic" for x in seq[:step + 1])
+                    return [(f"C07/purity/repeated-export-differs/{name}",
+                             f"export #{step + 1} of the same object ({name}) differs from the export of a fresh copy")]
+        # reading
+        f = PDBFile()
+        try:
+            f.set_structure(build_array(S, extra), hybrid36=S["flags"]["h36"])
+        except Exception:  # noqa: BLE001
+            return v
+        f = PDBFile.read(io.StringIO("\n".join(f.lines) + "\n"))
+        lines0 = list(f.lines)
+        fields = ["atom_id", "b_factor", "occupancy", "charge"]
+        _setup_ccd()
+        for kwargs in ({"model": None}, {"model": 1}, {"model": -1, "altloc": "all"}, {"model": None, "altloc": "occupancy"}):
+            ef = list(fields)
+            try:
+                first = f.get_structure(extra_fields=ef, include_bonds=S["flags"]["bonds"], **kwargs)
+                second = f.get_structure(extra_fields=ef, include_bonds=S["flags"]["bonds"], **kwargs)
+            except Exception:  # noqa: BLE001
+                continue
+            if ef != fields:
+                return [("C07/purity/get_structure-mutates-extra_fields", f"extra_fields became {ef}")]
+            if list(f.lines) != lines0:
+                return [("C07/purity/get_structure-mutates-file", "PDBFile.lines changed by get_structure")]
+            if _snapshot(first) != _snapshot(second):
+                return [("C07/purity/get_structure-not-repeatable", f"two get_structure({kwargs}) calls on the same file differ")]
     return v
 
 
